@@ -127,10 +127,16 @@ def not_followed_in(t):
 
 
 def sum_axes_in(t):
-    """the kinds of axis the sums inside t run over: 'source' (the source_axis parameter), 'other' (a literal or another parameter), 'computed'"""
+    """the kinds of axis the sums inside t run over: 'source' (the source_axis parameter), 'other' (a literal or another parameter), 'computed'; another reduction than a sum over
+    source_axis (mean, max, prod, median) counts as 'other': the formulas of the masks sum over the sources"""
     kinds = set()
     for x in walk_terms(t, into_mu=False) if isinstance(t, T) else ():
         n, pos, kw = call_parts(x) if x.op == 'call' else (None, (), {})
+        if n in ('numpy.mean', 'method:mean', 'numpy.amax', 'numpy.max', 'method:max', 'numpy.prod', 'method:prod', 'numpy.median', 'numpy.amin', 'numpy.min', 'method:min', 'numpy.average'):
+            ax = kw.get('axis', pos[1] if len(pos) > 1 else None)
+            if ax is not None and strip_views(ax).op == 'param' and strip_views(ax).args[0] == 'source_axis':
+                kinds.add('other')
+            continue
         if n in ('method:sum', 'numpy.sum'):
             ax = kw.get('axis', pos[1] if len(pos) > 1 else None)
             if ax is None:
@@ -243,7 +249,8 @@ def check_forms(run, A):
     st = [e for e in g.events if e.kind == 'store']
     oks = any(strip_views(e.term.args[1]).op == 'param' and strip_views(e.term.args[1]).args[0] == 'source_axis' for e in st)
     eqs = [t for e in g.events if e.term is not None for t in walk_terms(e.term) if t.op == 'cmp' and t.args[0] == 'Eq' and any(is_call_to(x, 'numpy.arange') for x in walk_terms(t.args[2]))]
-    if (not st and eqs) or not eqs:
+    reshaped_grid = any(is_call_to(x, 'numpy.reshape') and any(is_call_to(y, 'numpy.arange') for y in walk_terms(call_arg(x, 0))) for t_ in eqs for x in walk_terms(t_.args[2]))
+    if ((not st and eqs) or not eqs) and not reshaped_grid:
         # no shape list is filled in at all: the grid of class indices is laid out in another way (expand_dims over the other axes, ...) - not read here
         run.unresolved('FORM', 'ideal_binary_mask: compared with arange laid out along source_axis', fn.loc(), 'the class index grid is not built by filling a shape list at [source_axis]')
     else:
